@@ -43,6 +43,8 @@ pub struct Config {
     pub free_fn_impls: BTreeMap<String, String>,
     /// R-fornext: `for PAT in X.m(..) BODY` with m listed here (m returns an iterator modelled by its `next`)
     pub for_next: Vec<String>,
+    /// R-forvec: `for PAT in V BODY` with V one of these Vec variables (consumed by value)
+    pub for_vec: Vec<String>,
     /// R-selfmut: methods (selectors) whose `&self` receiver mutates the rowan tree through interior mutability
     pub self_mut: Vec<String>,
 }
@@ -67,6 +69,9 @@ impl Config {
         }
         if let Some(a) = u["self_mut"].as_array() {
             c.self_mut = a.iter().map(|v| v.as_str().unwrap().to_string()).collect();
+        }
+        if let Some(a) = u["for_vec"].as_array() {
+            c.for_vec = a.iter().map(|v| v.as_str().unwrap().to_string()).collect();
         }
         if let Some(a) = u["for_next"].as_array() {
             c.for_next = a.iter().map(|v| v.as_str().unwrap().to_string()).collect();
@@ -793,6 +798,25 @@ impl<'a> VisitMut for Rewriter<'a> {
             }
             if let Some(n) = rep {
                 fire(self.fired, "R-fornext");
+                *e = n;
+            }
+        }
+        // R-forvec: `for PAT in V BODY` (V a Vec variable listed in unit.json for_vec, consumed by value) =>
+        //   `{ let mut __it = vx_vec_into_iter(V); while let Some(PAT) = __it.next() BODY }`
+        {
+            let mut rep: Option<Expr> = None;
+            if let Expr::ForLoop(fl) = e {
+                if let Expr::Path(p) = &*fl.expr {
+                    if fl.label.is_none() && p.path.get_ident().map(|i| self.cfg.for_vec.iter().any(|v| i == v)).unwrap_or(false) {
+                        let v = &fl.expr;
+                        let pat = &fl.pat;
+                        let body = &fl.body;
+                        rep = Some(parse_quote!({ let mut __it = vx_vec_into_iter(#v); while let Some(#pat) = __it.next() #body }));
+                    }
+                }
+            }
+            if let Some(n) = rep {
+                fire(self.fired, "R-forvec");
                 *e = n;
             }
         }
